@@ -398,6 +398,8 @@ class ScoreVoteValidator:
                     len(item), 2, 2, 'scoring pair length'
                 )
             self.nominator.validate(item[0])
+        if len(frozenset(item[0] for item in vote)) < n_scorings:
+            raise VoteError(f'duplicated candidates: {vote}')
         sum_checker = self.sum_checkers[n_scorings]
         if sum_checker:
             sum_checker.check(sum(scoring[1] for scoring in vote))
